@@ -6,6 +6,8 @@ The true weaker statements are the `…_partial` theorems of Props/C15.lean.
 import WpModel.Model.Counters
 import WpModel.Model.Repaginate
 import WpModel.Gen.CounterStyles
+import WpModel.Model.PageCounters
+import WpModel.Model.TargetText
 
 namespace Wp.Witness.C15
 open Wp.Counters Wp.Repaginate
@@ -69,5 +71,32 @@ theorem oscillation :
   refine ⟨by decide, by decide, by decide, ?_⟩
   intro s _
   cases s <;> decide
+
+/-- finding `target-counter-pages-forward-crash`: `a::after { content: target-counter(attr(href), pages) }`
+with the target on a later page.  When the page holding the link is made, the target has not been met
+yet (`page_maker_index is None`) and step 3 of the counter section evaluates `None >= 0`.
+Refutes: "the counter section of `make_page` never raises" (`C15.step3_total_partial`). -/
+theorem forward_pages_reference_raises :
+    Wp.PageCounters.counterSection
+      { collecting := false
+        targets := [("t", ⟨true, none, []⟩)]
+        lookups := [⟨true, [], [("t", ["pages"])], none, false, []⟩]
+        pageMaker := [⟨false, false, [], []⟩]
+        calls := [] }
+      1 [("page", [1]), ("pages", [0])] [⟨none, some 0⟩] = .error .typeError := by
+  rfl
+
+open Wp.TargetText in
+/-- finding `target-text-open-target-empty`: `<a id="x" href="#x">self</a>` with
+`a::after { content: "[" target-text(attr(href)) "]" }` prints `[]`: when the content of `::after` is
+computed the element's own box (and every ancestor's) has no children yet.
+Refutes: "target-text() prints the text of the designated element" for self / ancestor targets
+(`C15.target_text_partial`). -/
+theorem target_text_of_open_target_is_empty :
+    afterBoxes (.mk 0 true none "" none none
+      [.mk 1 true (some "x") "self" none (some [.str "[", .ref "x" .content, .str "]"]) [] ""] "")
+      = [(1, "[]")] ∧
+    boxText (.mk 1 true (some "x") "self" none (some [.str "[", .ref "x" .content, .str "]"]) [] "") = "self" := by
+  decide
 
 end Wp.Witness.C15
